@@ -30,6 +30,7 @@ import (
 
 var (
 	errMismatchedChecksumTypes  = errors.New("peer returned different checksum types between fragments")
+	errUnknownChecksumType      = errors.New("peer sent a fragment with an unknown checksum type")
 	errMismatchedChecksums      = errors.New("different checksums between peer and local")
 	errChunkExceedsFragmentSize = errors.New("peer chunk size exceeds remaining data in fragment")
 	errAlreadyReadingArgument   = errors.New("already reading argument")
